@@ -53,7 +53,7 @@ func c03prop(r *simkit.Run) {
 	}
 	busyPastLifetime := false
 	lastAdmit := make([]time.Duration, nsrc)
-	opsLeft := rapid.IntRange(20, 400).Draw(rt, "ops")
+	opsLeft := rapid.IntRange(20, deep(400, 2000)).Draw(rt, "ops")
 	var trace []string
 
 	var pendingKind, pendingMsg string
